@@ -7,6 +7,9 @@ import (
 
 	"pgregory.net/rapid"
 
+	"github.com/evolbioinfo/gotree/tree"
+
+	"verif/internal/cli"
 	"verif/internal/gen"
 	"verif/internal/gt"
 	"verif/internal/h"
@@ -128,6 +131,16 @@ func check(c Case) error {
 	if err != nil {
 		return err
 	}
+	if err := compareInduced(c, keep, after); err != nil {
+		return err
+	}
+	wt := ref.Restrict(c.Tree, keep).Tips()
+	sort.Strings(wt)
+	return lookups(c, t, keep, wt)
+}
+
+// compareInduced: the pruned tree (reference reading of its text) is the subtree induced on the kept tips.
+func compareInduced(c Case, keep func(string) bool, after *ref.Node) error {
 	want := ref.Restrict(c.Tree, keep)
 	wt := want.Tips()
 	at := after.Tips()
@@ -156,6 +169,10 @@ func check(c Case) error {
 	if err := ref.CompareDist(nw, dw, na, da, exact); err != nil {
 		return fmt.Errorf("%v\n before %s\n after  %s", err, ref.Write(c.Tree), ref.Write(after))
 	}
+	return nil
+}
+
+func lookups(c Case, t *tree.Tree, keep func(string) bool, wt []string) error {
 	if c.Indexed {
 		// look-ups by name reflect the new tip set
 		reach := map[string]bool{}
@@ -251,6 +268,107 @@ func TestC06Prune(t *testing.T) {
 				l = append(l, "root-touched")
 			}
 			return forced || rootTouched, l
+		},
+	})
+}
+
+// ---------------------------------------------------------------------------------------
+// command level: gotree prune with tips as arguments, -f tip file, -c compared tree, -r
+
+type CliCase struct {
+	Case
+	Mode string `json:"mode"` // args | file | comp
+}
+
+func checkCli(c CliCase) error {
+	if !cli.Available() {
+		return fmt.Errorf("harness: gotree binary not built")
+	}
+	dir := cli.Scratch()
+	given := map[string]bool{}
+	for _, n := range c.Names {
+		given[n] = true
+	}
+	args := []string{"prune"}
+	switch c.Mode {
+	case "args":
+		args = append(args, c.Names...)
+	case "file":
+		text := ""
+		for _, n := range c.Names {
+			text += n + "\n"
+		}
+		args = append(args, "-f", cli.Write(dir, "tips.txt", text))
+	case "comp":
+		// the compared tree holds the tips that are NOT named (plus a foreign one): the command
+		// removes the tips of the input tree that are absent from the compared tree
+		var other []string
+		for _, n := range c.Tree.Tips() {
+			if !given[n] {
+				other = append(other, n)
+			}
+		}
+		other = append(other, "zz_foreign")
+		comp := "("
+		for i, n := range other {
+			if i > 0 {
+				comp += ","
+			}
+			comp += n
+		}
+		comp += ");\n"
+		args = append(args, "-c", cli.Write(dir, "comp.nw", comp))
+	}
+	if c.Revert {
+		args = append(args, "-r")
+	}
+	r := cli.Run(dir, ref.Write(c.Tree)+"\n", args...)
+	ctx := fmt.Sprintf(" (gotree %v on %s)", args, ref.Write(c.Tree))
+	if r.Code != 0 || r.TimedOut {
+		return fmt.Errorf("command failed with status %d: %s%s", r.Code, r.Stderr, ctx)
+	}
+	after, err := ref.Parse(trim(r.Stdout))
+	if err != nil {
+		return fmt.Errorf("output not readable: %v%s", err, ctx)
+	}
+	keep := func(n string) bool { return given[n] == c.Revert }
+	if err := compareInduced(c.Case, keep, after); err != nil {
+		return fmt.Errorf("%v%s", err, ctx)
+	}
+	return nil
+}
+
+func trim(s string) string {
+	for len(s) > 0 && (s[len(s)-1] == '\n' || s[len(s)-1] == '\r') {
+		s = s[:len(s)-1]
+	}
+	return s
+}
+
+func TestC06Cli(t *testing.T) {
+	h.Run(t, h.Spec[CliCase]{
+		Property: "C06", Name: "cli", Quick: 2400, Thorough: 48000,
+		Rule: "the same trees and removal sets through `gotree prune`: tips as arguments, -f tip file, -c compared tree (tips absent from it are removed), each with and without -r; the printed tree is compared with the induced subtree of the reference model; non-trivial = >= 1 tip removed and >= 1 multifurcation or rooted tree",
+		Gen: func(t *rapid.T, thorough bool) CliCase {
+			c := CliCase{Case: genCase(t, false), Mode: rapid.SampledFrom([]string{"args", "file", "comp"}).Draw(t, "mode")}
+			if c.Mode == "args" && len(c.Names) == 0 {
+				c.Mode = "file"
+			}
+			return c
+		},
+		Check: checkCli,
+		Classify: func(c CliCase) (bool, []string) {
+			given := map[string]bool{}
+			for _, n := range c.Names {
+				given[n] = true
+			}
+			removed := 0
+			for _, n := range c.Tree.Tips() {
+				if given[n] != c.Revert {
+					removed++
+				}
+			}
+			return removed >= 1 && (c.Tree.MaxDegree() > 3 || len(c.Tree.Ch) == 2), []string{"mode:" + c.Mode, fmt.Sprintf("revert=%v", c.Revert)}
 		},
 	})
 }
